@@ -26,6 +26,8 @@ class Aff:
 
     @staticmethod
     def sym(s, k=1):
+        if k == 0:
+            return Aff(0)
         return Aff(0, {s: k})
 
     def key(self):
